@@ -534,6 +534,35 @@ def prove_download_path(src_root, ex: Explorer):
         ctx.prove(f'C09.prepare.creates-directory[{has}]', len(created) == 1 and created[0] == ('dirname', lp))
     ex.run(prepare, 'prepare')
 
+    def mkdir_fails(ctx: Ctx):
+        """the ONLY local path a download is ever given is the one the chain produced (C09.chain.*: inside the download directory, a
+        plain file name, not existing): when the directory cannot be created the error surfaces (the caller fails the download) - no
+        other path is substituted, because nothing was proved about any other path"""
+        import posixpath
+        it = mk(src_root, ctx)
+        install_os(it, ctx)
+        it.natives['os.path.split'] = Native('split', lambda it2, a, k: posixpath.split(unbox(a[0])))
+        it.natives['os.path.join'] = Native('join', lambda it2, a, k: posixpath.join(*[unbox(x) for x in a]))
+
+        def mkdir(it2, a, k):
+            it2.throw('OSError', 'File name too long')
+        shares = Stub('shares', calculate_download_path=Recorder('calc', ret=('/dl/Some Album', 'f.mp3')),
+                      create_directory=Recorder('mkdir', fn=mkdir, is_async=True),
+                      get_download_directory=Recorder('get_download_directory', ret='/dl'),
+                      _settings=Stub('settings', shares=Stub('shares', download='/dl')))
+        t = new(it, 'transfer.model', 'Transfer', remote_path='r', local_path=None)
+        mgr = new(it, 'transfer.manager', 'TransferManager', _shares_manager=shares, _settings=shares.attrs['_settings'])
+        try:
+            run(it, it.getattr(mgr, '_prepare_download_path'), t)
+            raised = None
+        except PyRaise as pr:
+            raised = pr.exc.cls.name
+        lp = t.attrs['local_path']
+        ctx.prove('C09.prepare.path-only-from-chain', lp in (None, '/dl/Some Album/f.mp3') and raised == 'OSError',
+                  f'the directory chosen by the strategies could not be created: the download was given {lp!r} (raised: {raised}) instead of '
+                  'failing - a path the chain did not produce was never checked for existence or containment')
+    ex.run(mkdir_fails, 'prepare-mkdir-fails')
+
     def unique(ctx: Ctx):
         """class invariant over active downloads: t1 != t2 => local_path(t1) != local_path(t2).  _prepare_download_path yields
         (create_directory) between choosing the name and the moment the file exists (aiofiles.open): at that yield another
@@ -605,8 +634,73 @@ def prove_window(src_root, ex: Explorer):
               f'the local path is chosen by {sorted(set(callers))}; suspensions between the choice and the creation of the file: {on_path}')
 
 
+def prove_requeue_clears_path(src_root, ex: Explorer):
+    """_prepare_download_path keeps a local path that is already set (C09.prepare.keeps-path: resuming an interrupted download).  A download
+    that starts over from a FINISHED file (COMPLETE -> QUEUED) or from a file that was removed (ABORTED -> QUEUED) must therefore have its
+    local path cleared by queue(): otherwise the new attempt is given a path that was chosen long ago - it exists (the finished file is
+    appended to) or was taken by another download meanwhile."""
+    from contracts import C03
+
+    def path(ctx: Ctx):
+        it = mk(src_root, ctx)
+        effects: list = []
+        C03.install_env(it, ctx, effects)
+        sname = ['CompleteState', 'AbortedState'][ctx.choose(2, 'state')]
+        notified: list = []
+        t, lock = C03.mk_transfer(it, ctx, 'DOWNLOAD', notified)
+        st = it.call(cls(it, 'transfer.state', sname), [t], {})
+        t.attrs['state'] = st
+        t.attrs['local_path'] = '/dl/song.mp3'
+        t.attrs['filesize'] = 10
+        t.attrs['bytes_transfered'] = 10
+        lock.locked = True
+        r = run(it, it.getattr(st, 'queue'))
+        if it.truth(r) is True:
+            ctx.prove(f'C09.requeue.clears-path[{sname[:-5].upper()}]', t.attrs['local_path'] is None,
+                      f'the download starts over but keeps the local path {t.attrs["local_path"]!r} chosen for the previous attempt')
+        else:
+            ctx.fail(f'C09.requeue.clears-path[{sname[:-5].upper()}]', 'queue() refused')
+    ex.run(path, 'requeue-clears-path')
+
+
+def prove_removal_clears_path(src_root, ex: Explorer):
+    """A download whose local path is set holds that name: the file exists (created right after the choice, C09.prepare.window), so the
+    duplicate strategy of another download sees it.  Removing the file while the path stays set gives the name away - the next download
+    of an equally named file takes it and both write to one file.  (a) whole-tree scan: every call that removes a file named by some
+    `.local_path` is followed, in the same function, by `<transfer>.local_path = None`; (b) the one helper that does it today is executed:
+    whenever it returns, the path is cleared."""
+    import ast
+    src, _ = source(src_root)
+
+    def scan(ctx: Ctx):
+        sites = []
+        for mod, qn, node in src.functions():
+            for sub in ast.walk(node):
+                if isinstance(sub, ast.Call) and isinstance(sub.func, ast.Attribute) and sub.func.attr in ('remove', 'unlink', 'rmtree') \
+                        and any('local_path' in ast.unparse(a) for a in sub.args) \
+                        and ast.unparse(sub.func.value).split('.')[0] in ('os', 'asyncos', 'aiofiles', 'shutil', 'pathlib'):
+                    cleared = any(isinstance(st, ast.Assign) and st.lineno > sub.lineno and isinstance(st.value, ast.Constant) and st.value.value is None
+                                  and any(isinstance(tg, ast.Attribute) and tg.attr == 'local_path' for tg in st.targets) for st in ast.walk(node))
+                    sites.append((qn, sub.lineno, cleared))
+        ctx.prove('C09.local-file.removal-clears-path', bool(sites) and all(c for _q, _l, c in sites),
+                  f'file removals of a local path (function, line, path cleared afterwards): {sites}')
+    ex.run(scan, 'removal-sites')
+
+    def helper(ctx: Ctx):
+        from contracts import C03
+        it = mk(src_root, ctx)
+        effects: list = []
+        C03.install_env(it, ctx, effects)
+        t, _lock = C03.mk_transfer(it, ctx, 'DOWNLOAD', [])
+        t.attrs['local_path'] = '/dl/song.mp3'
+        run(it, func(it, 'transfer.state', '_remove_local_file'), t)
+        ctx.prove('C09.local-file._remove_local_file.clears-path', t.attrs['local_path'] is None,
+                  f'effects {effects}: the helper returned with the local path still set')
+    ex.run(helper, 'removal-helper')
+
+
 def items(src_root, tier):
-    return [('split', None), ('strategies', None), ('chain', None), ('path', None), ('window', None)]
+    return [('removal', None), ('requeue', None), ('split', None), ('strategies', None), ('chain', None), ('path', None), ('window', None)]
 
 
 def run_item(src_root, item, tier):
@@ -614,12 +708,13 @@ def run_item(src_root, item, tier):
     ex = Explorer()
     kind, arg = item
     try:
-        {'split': prove_split, 'strategies': prove_strategies, 'chain': prove_chain, 'path': prove_download_path, 'window': prove_window}[kind](src_root, ex)
+        {'split': prove_split, 'strategies': prove_strategies, 'chain': prove_chain, 'path': prove_download_path, 'window': prove_window,
+         'requeue': prove_requeue_clears_path, 'removal': prove_removal_clears_path}[kind](src_root, ex)
     except Unsupported as e:
         res.errors.append(f'{kind}: unsupported: {e}')
     collect(res, ex)
     res.functions.update([f'{UTILS}:split_remote_path', f'{NAMING}:DefaultNamingStrategy.apply', f'{NAMING}:KeepDirectoryStrategy.apply',
                           f'{NAMING}:NumberDuplicateStrategy.apply', f'{NAMING}:DuplicateNamingStrategy.should_be_applied', f'{NAMING}:chain_strategies',
                           'shares.manager:SharesManager.calculate_download_path', 'shares.manager:SharesManager.get_download_directory',
-                          'transfer.manager:TransferManager._prepare_download_path'])
+                          'transfer.manager:TransferManager._prepare_download_path', 'transfer.state:CompleteState.queue', 'transfer.state:AbortedState.queue'])
     return res
